@@ -1581,3 +1581,165 @@ Section DirRefine.
     drel f {| d_cursor := 0; d_closed := false |}.
   Proof. intros. unfold drel. cbn [d_cursor d_closed]. repeat split; auto. lia. Qed.
 End DirRefine.
+
+(* ======================================================================= *)
+(* Directory handles on a directory that CHANGES between the calls           *)
+(* ======================================================================= *)
+(* The file system value may be any [s] at each call, as long as the handle's node is still a directory there: the
+   listing a handle reads is the one the directory has at its first read after open or rewind (dir_step_live, the
+   current listing being a parameter of every step). *)
+Section DirLive.
+  Variables (v : view) (c : nat).
+  Hypothesis Hlinux : win v = false.
+
+  (* the handle and the description: closed together; nothing read yet / the same listing and position *)
+  Definition lrel (f : handle) (x : ldfd) : Prop :=
+    hd_name f <> [] /\
+    if d_closed (l_d x) then hd_node f = None
+    else hd_node f = Some c
+         /\ match l_snap x with
+            | None => hd_dir_infos f = None /\ d_cursor (l_d x) = 0%nat
+            | Some names => exists L, hd_dir_infos f = Some L /\ names = map (@fi_name) L
+                                      /\ hd_dir_index f = d_cursor (l_d x) /\ (d_cursor (l_d x) <= length L)%nat
+            end.
+
+  (* one read, from a handle whose listing for this pass is L: taken already, or about to be taken from s *)
+  Lemma dir_read_gen s ch m f n ret (L : list finfo) (ix : nat) :
+    get (f_heap s) c = Some (NDir ch m) ->
+    (forall l e, dproj (ret l e) = D_Batch (map (@fi_name) l) (option_map fproj_err e)) ->
+    hd_name f <> [] -> hd_node f = Some c -> (ix <= length L)%nat ->
+    ((hd_dir_infos f = None /\ ix = 0%nat /\ L = dir_infos (f_heap s) ch) \/ (hd_dir_infos f = Some L /\ hd_dir_index f = ix)) ->
+    let d := {| d_cursor := ix; d_closed := false |} in
+    let f' := fst (dir_read s v f n ret) in
+    let d' := fst (dir_step (map (@fi_name) L) d (DReadDir n)) in
+    dproj (snd (dir_read s v f n ret)) = snd (dir_step (map (@fi_name) L) d (DReadDir n))
+    /\ hd_name f' <> [] /\ hd_node f' = Some c /\ hd_dir_infos f' = Some L /\ hd_dir_index f' = d_cursor d'
+    /\ (d_cursor d' <= length L)%nat /\ d_closed d' = false.
+  Proof.
+    intros Hdir Hret Hnm Hnd Hix Hpos d.
+    assert (E : (match hd_dir_infos f with Some l => l | None => dir_infos (f_heap s) ch end) = L
+                /\ (match hd_dir_infos f with Some _ => hd_dir_index f | None => 0%nat end) = ix).
+    { destruct Hpos as [(Hi & -> & ->)|[Hi Hx]]; rewrite Hi; auto. }
+    destruct E as [E1 E2].
+    unfold dir_read. destruct (hd_name f) eqn:En; [congruence|]. rewrite Hnd, Hdir, E1, E2.
+    unfold dir_step, d. cbn [d_closed d_cursor].
+    rewrite skipn_map. unfold dir_batch.
+    destruct (Z.leb_spec n 0) as [Hn|Hn].
+    - destruct (Z.ltb_spec 0 n); [lia|]. cbn [andb fst snd].
+      rewrite (firstn_all2 (n := length L - ix)) by (rewrite skipn_length; lia).
+      rewrite Hret. cbn [option_map hd_name hd_node hd_dir_infos hd_dir_index d_cursor d_closed]. rewrite map_length.
+      repeat split; auto; congruence.
+    - destruct (Z.ltb_spec 0 n); [|lia].
+      destruct (Nat.leb_spec (length L) ix) as [Hend|Hmid]; cbn [andb fst snd].
+      + rewrite skipn_all2 by lia. rewrite Hret.
+        cbn [map option_map fproj_err fst snd hd_name hd_node hd_dir_infos hd_dir_index d_cursor d_closed].
+        repeat split; auto; congruence.
+      + destruct (skipn ix L) as [|x0 rest] eqn:Erest.
+        { apply (f_equal (@length _)) in Erest. rewrite skipn_length in Erest. cbn in Erest. lia. }
+        cbn [map]. change (fi_name x0 :: map (@fi_name) rest) with (map (@fi_name) (x0 :: rest)).
+        rewrite <- Erest.
+        assert (Hb : firstn (Nat.min (ix + Z.to_nat n) (length L) - ix) (skipn ix L) = firstn (Z.to_nat n) (skipn ix L)).
+        { destruct (Nat.le_ge_cases (ix + Z.to_nat n) (length L)) as [H1|H1].
+          - rewrite Nat.min_l by lia. f_equal. lia.
+          - rewrite Nat.min_r by lia. rewrite !firstn_all2; auto; rewrite skipn_length; lia. }
+        rewrite Hb, Hret. cbn [option_map fst snd hd_name hd_node hd_dir_infos hd_dir_index d_cursor d_closed].
+        rewrite firstn_map, map_length, firstn_length, skipn_length.
+        repeat split; auto; try congruence; lia.
+  Qed.
+
+  (* every operation, in any file system value in which the handle's node is a directory *)
+  Theorem dir_live_step s ch m f x op :
+    get (f_heap s) c = Some (NDir ch m) -> lrel f x ->
+    dproj (snd (dimpl s v f op)) = snd (dir_step_live (map (@fi_name) (dir_infos (f_heap s) ch)) x op)
+    /\ lrel (fst (dimpl s v f op)) (fst (dir_step_live (map (@fi_name) (dir_infos (f_heap s) ch)) x op)).
+  Proof.
+    intros Hdir HR. pose proof HR as (Hnm & Hrel). unfold dir_step_live.
+    destruct (d_closed (l_d x)) eqn:Hcl.
+    - destruct (closed_handle s v f Hnm Hrel Hlinux)
+        as (C1 & _ & _ & _ & C5 & _ & _ & _ & _ & _ & _ & C12 & C13 & C14).
+      destruct op; cbn [dimpl]; rewrite ?C1, ?C5, ?C12, ?C13, ?C14; cbn [fst snd dproj fproj_err]; auto.
+    - destruct Hrel as [Hnd Hsnap].
+      assert (Hread : forall n ret,
+                (forall l e, dproj (ret l e) = D_Batch (map (@fi_name) l) (option_map fproj_err e)) ->
+                let snap := match l_snap x with Some l => l | None => map (@fi_name) (dir_infos (f_heap s) ch) end in
+                dproj (snd (dir_read s v f n ret)) = snd (dir_step snap (l_d x) (DReadDir n))
+                /\ lrel (fst (dir_read s v f n ret))
+                        {| l_d := fst (dir_step snap (l_d x) (DReadDir n)); l_snap := Some snap |}).
+      { intros n ret Hret snap.
+        destruct (l_d x) as [cur cl] eqn:Ed. cbn [d_closed d_cursor] in *. subst cl.
+        destruct (l_snap x) as [names|] eqn:Esn.
+        - subst snap. destruct Hsnap as (L & Hi & -> & Hx & Hle).
+          destruct (dir_read_gen s ch m f n ret L cur Hdir Hret Hnm Hnd Hle (or_intror (conj Hi Hx)))
+            as (Hr & Hn' & Hd' & Hi' & Hx' & Hle' & Hcl').
+          split; [exact Hr|]. unfold lrel. cbn [l_d l_snap]. rewrite Hcl'. repeat split; auto. exists L. auto.
+        - subst snap. destruct Hsnap as [Hi ->].
+          destruct (dir_read_gen s ch m f n ret (dir_infos (f_heap s) ch) 0 Hdir Hret Hnm Hnd (Nat.le_0_l _)
+                      (or_introl (conj Hi (conj eq_refl eq_refl))))
+            as (Hr & Hn' & Hd' & Hi' & Hx' & Hle' & Hcl').
+          split; [exact Hr|]. unfold lrel. cbn [l_d l_snap]. rewrite Hcl'. repeat split; auto.
+          exists (dir_infos (f_heap s) ch). auto. }
+      destruct op as [n|n| |n|]; cbn [dimpl].
+      + destruct (Hread n (fun l e => RInfos l e) (fun _ _ => eq_refl)) as [H1 H2].
+        destruct (dir_step _ (l_d x) (DReadDir n)) as [d' r] eqn:Es. cbn [fst snd] in *. auto.
+      + destruct (Hread n (fun l e => RNames (map (@fi_name) l) e) (fun _ _ => eq_refl)) as [H1 H2].
+        change (dir_step (match l_snap x with Some l => l | None => map (@fi_name) (dir_infos (f_heap s) ch) end)
+                  (l_d x) (DReaddirnames n))
+          with (dir_step (match l_snap x with Some l => l | None => map (@fi_name) (dir_infos (f_heap s) ch) end)
+                  (l_d x) (DReadDir n)).
+        destruct (dir_step _ (l_d x) (DReadDir n)) as [d' r] eqn:Es. cbn [fst snd] in *. auto.
+      + unfold f_seek, file_of. destruct (hd_name f) eqn:En; [congruence|].
+        rewrite Hnd, Hdir. cbn [Z.eqb andb fst snd dproj]. split; [reflexivity|].
+        unfold lrel, ldfd0. cbn [hd_name hd_node hd_dir_infos hd_dir_index l_d l_snap d_cursor d_closed].
+        repeat split; auto; congruence.
+      + unfold f_read, file_of, dir_step. rewrite Hcl. destruct (hd_name f) eqn:En; [congruence|].
+        rewrite Hnd, Hdir. fold (win v). rewrite Hlinux.
+        destruct (Z.leb n 0); cbn [fst snd dproj option_map fproj_err]; (split; [reflexivity|]);
+          unfold lrel; cbn [l_d l_snap]; rewrite Hcl; repeat split; auto; congruence.
+      + unfold f_close, dir_step. rewrite Hcl, Hnd. cbn [fst snd dproj]. split; [reflexivity|].
+        unfold lrel. cbn [hd_name hd_node l_d l_snap d_cursor d_closed]. auto.
+  Qed.
+
+  (* all histories: the file system value (and so the directory) may be a different one at each call *)
+  Fixpoint dlive_impl (f : handle) (steps : list (fsys * dop)) : handle * list res :=
+    match steps with
+    | [] => (f, [])
+    | (s, op) :: rest =>
+        let '(f1, r) := dimpl s v f op in
+        let '(f2, rs) := dlive_impl f1 rest in
+        (f2, r :: rs)
+    end.
+
+  Fixpoint dlive_spec (x : ldfd) (steps : list (list str * dop)) : ldfd * list dres :=
+    match steps with
+    | [] => (x, [])
+    | (cur, op) :: rest =>
+        let '(x1, r) := dir_step_live cur x op in
+        let '(x2, rs) := dlive_spec x1 rest in
+        (x2, r :: rs)
+    end.
+
+  Definition dir_in (s : fsys) : option (list str) :=
+    match get (f_heap s) c with
+    | Some (NDir ch _) => Some (map (@fi_name) (dir_infos (f_heap s) ch))
+    | _ => None
+    end.
+
+  Theorem dir_live_history : forall steps f x,
+    lrel f x -> Forall (fun st => dir_in (fst st) <> None) steps ->
+    let specsteps := map (fun st => (match dir_in (fst st) with Some l => l | None => [] end, snd st)) steps in
+    map dproj (snd (dlive_impl f steps)) = snd (dlive_spec x specsteps)
+    /\ lrel (fst (dlive_impl f steps)) (fst (dlive_spec x specsteps)).
+  Proof.
+    induction steps as [|[s op] steps IH]; intros f x HR Hall; cbn [dlive_impl dlive_spec map fst snd]; [cbn; auto|].
+    inversion Hall as [|? ? Hd Hrest]; subst. cbn [fst] in Hd. unfold dir_in in *.
+    destruct (get (f_heap s) c) as [[ch m|d0 k i m|t m]|] eqn:Hg; try congruence.
+    destruct (dir_live_step s ch m f x op Hg HR) as [Hres HR'].
+    destruct (dimpl s v f op) as [f1 r]. destruct (dir_step_live _ x op) as [x1 r']. cbn [fst snd] in *.
+    destruct (IH f1 x1 HR' Hrest) as [Hrs HR2].
+    destruct (dlive_impl f1 steps) as [f2 rs]. destruct (dlive_spec x1 _) as [x2 rs']. cbn [fst snd map] in *.
+    split; [congruence|assumption].
+  Qed.
+
+  Lemma lrel_fresh f : hd_name f <> [] -> hd_node f = Some c -> hd_dir_infos f = None -> lrel f ldfd0.
+  Proof. intros. unfold lrel, ldfd0. cbn [l_d l_snap d_cursor d_closed]. auto. Qed.
+End DirLive.
